@@ -494,6 +494,14 @@ class Executor:
             text = ast.unparse(node)
             if text in sf:
                 return st.env["§" + text]
+        oq = self.c.get("opaque")
+        if oq and not spec and not isinstance(node, (ast.Constant, ast.Name)):
+            text = ast.unparse(node)
+            if text in oq:
+                # an expression abstracted to a specification term over named variables (a deterministic, side-effect free expression is SOME function
+                # of the variables it reads; the proof then holds for every such function)
+                self.dropped.add(f"expression `{text}` abstracted to `{oq[text]}`")
+                return self.ev(_parse(oq[text]), st, True)
         m = getattr(self, "ev_" + type(node).__name__, None)
         if m is None:
             raise OutOfSubset(f"expression {type(node).__name__}: {ast.unparse(node)[:60]}")
@@ -1040,6 +1048,11 @@ class Executor:
             r = self.ev(_parse(body), sub, True)
             self.carry_defs(sub, st)
             return r
+        if name in self.c.get("spec_defs", {}):
+            fun = self.spec_def_fun(name)
+            sig = self.c["spec_defs"][name]
+            args = [elem_term(ty, self.ev(x, st, True)) for ty, x in zip(sig["params"].values(), a)]
+            return {"int": IntV, "bool": BoolV, "obj": ObjV}[sig["returns"]](fun(*args))
         if name in self.c.get("spec_funcs", {}):
             sig = self.c["spec_funcs"][name]
             if name not in self.ufs:
@@ -1048,6 +1061,31 @@ class Executor:
             r = self.ufs[name](*args)
             return {"int": IntV, "bool": BoolV, "obj": ObjV}[sig[1]](r)
         return None
+
+    def spec_def_fun(self, name):
+        """a specification function defined by a (possibly recursive) equation  name(params) == body; the body may mention the verified function's
+        parameters (their entry values).  The defining equation is assumed as a quantified axiom with the application as its trigger."""
+        key = "def:" + name
+        if key not in self.ufs:
+            sig = self.c["spec_defs"][name]
+            self.ufs[key] = z3.Function("spec:" + name, *[ELEM_SORT[t] for t in sig["params"].values()], ELEM_SORT[sig["returns"]])
+        return self.ufs[key]
+
+    def spec_def_axioms(self, st):
+        out = []
+        wrap = {"int": IntV, "bool": BoolV, "obj": ObjV}
+        for name, sig in self.c.get("spec_defs", {}).items():
+            fun = self.spec_def_fun(name)
+            bound = [fresh(pn, ELEM_SORT[ty]) for pn, ty in sig["params"].items()]
+            sub = State()
+            sub.env = dict(st.old)
+            sub.old = st.old
+            for (pn, ty), b in zip(sig["params"].items(), bound):
+                sub.env[pn] = wrap[ty](b)
+            body = self.ev(_parse(sig["body"]), sub, True)
+            bt = self.truth(body, sub) if sig["returns"] == "bool" else (body.t if not isinstance(body, IntV) else body.t)
+            out.append(z3.ForAll(bound, fun(*bound) == bt, patterns=[fun(*bound)]))
+        return out
 
     # ---- statements ---------------------------------------------------------------------------------
     def exec_block(self, stmts, st: State):
@@ -1336,6 +1374,24 @@ class Executor:
             if f == "enumerate":
                 cnt, el = self.iter_desc(node.args[0], st)
                 return cnt, (lambda i, s: TupleV([IntV(i), el(i, s)]))
+        if (isinstance(node, ast.Call) and isinstance(node.func, ast.Attribute) and node.func.attr in ("items", "keys") and not node.args
+                and isinstance(node.func.value, ast.Name) and isinstance(st.env.get(node.func.value.id), DictV)):
+            # iterating a dict: SOME enumeration of its keys without repetition (insertion order is not modelled; nothing proved may depend on the order).
+            # The enumeration is visible to specifications as the ghost list <dict>_keys.
+            d = st.env[node.func.value.id]
+            if d.vt.startswith("list["):
+                raise OutOfSubset("iteration over a dict of lists")
+            ks = mk_list(node.func.value.id + "_keys", d.key)
+            i, j, k = fresh("di", z3.IntSort()), fresh("dj", z3.IntSort()), fresh("dk", ELEM_SORT[d.key])
+            self.define(st, ks.n >= 0)
+            self.define(st, z3.ForAll([i], z3.Implies(z3.And(0 <= i, i < ks.n), z3.Select(d.has, ks.arr[i])), patterns=[ks.arr[i]]))
+            self.define(st, z3.ForAll([i, j], z3.Implies(z3.And(0 <= i, i < j, j < ks.n), ks.arr[i] != ks.arr[j]), patterns=[z3.MultiPattern(ks.arr[i], ks.arr[j])]))
+            self.define(st, z3.ForAll([k], z3.Implies(z3.Select(d.has, k), z3.Exists([i], z3.And(0 <= i, i < ks.n, ks.arr[i] == k))), patterns=[z3.Select(d.has, k)]))
+            st.env[node.func.value.id + "_keys"] = ks
+            wrap = {"int": IntV, "obj": ObjV, "bool": BoolV}
+            if node.func.attr == "keys":
+                return ks.n, (lambda i_, s_: wrap[d.key](ks.arr[i_]))
+            return ks.n, (lambda i_, s_: TupleV([wrap[d.key](ks.arr[i_]), wrap[d.vt](z3.Select(d.val, ks.arr[i_]))]))
         if isinstance(node, ast.GeneratorExp):
             # a generator expression consumed once by the enclosing loop/zip: the same elements as the list comprehension (elements are side-effect free here)
             lc = ast.ListComp(elt=node.elt, generators=node.generators)
@@ -1393,6 +1449,9 @@ class Executor:
         k, spec = self.loop_spec(s)
         if isinstance(s.iter, ast.Name) and s.iter.id in self.modified_names(s.body):
             raise OutOfSubset("for loop over a list modified in its body")
+        if (isinstance(s.iter, ast.Call) and isinstance(s.iter.func, ast.Attribute) and isinstance(s.iter.func.value, ast.Name)
+                and s.iter.func.value.id in self.modified_names(s.body)):
+            raise OutOfSubset("for loop over a dict modified in its body")
         cnt, el = self.iter_desc(s.iter, st)
         idx = spec.get("index", f"_i{k}")
         if idx in {m.id for m in ast.walk(s.target) if isinstance(m, ast.Name)} | self.modified_names(s.body):
@@ -1578,6 +1637,8 @@ class Executor:
         for gname, (gty, ginit) in c.get("ghost", {}).items():
             st.env[gname] = self.ev(_parse(ginit), st, True) if ginit is not None else self.make_param(gname, gty)
         st.old = dict(st.env)
+        for ax in self.spec_def_axioms(st):
+            st.pc.append(ax)
         for r in c.get("requires", []):
             st.pc.append(self.truth(self.ev(_parse(r), st, True), st))
         self.pre = list(st.pc)
